@@ -64,16 +64,21 @@ Proof.
     assert (E6 : et =? 34525 = false) by (apply N.eqb_eq in E4; apply N.eqb_neq; rewrite E4; discriminate).
     rewrite H34, E6 in Hk. rewrite !andb_false_r in Hk. cbn [andb orb] in Hk. rewrite !orb_false_r in Hk.
     set (b0 := nth 14 f 0) in *. set (tl := be16 (nth 16 f 0) (nth 17 f 0)) in *.
-    assert (Hv : b0 / 16 =? 4 = true /\ b0 mod 16 <? 5 = false /\ nth 23 f 0 =? 58 = false /\
-                 tl <? 4 * (b0 mod 16) + 8 = false).
-    { destruct (b0 / 16 =? 4), (b0 mod 16 <? 5), (nth 23 f 0 =? 58), (tl <? 4 * (b0 mod 16) + 8);
+    assert (Hv : b0 / 16 =? 4 = true /\ nth 23 f 0 =? 58 = false /\
+                 (4 * (b0 mod 16) <=? tl) && (tl <? 4 * (b0 mod 16) + 8) = false).
+    { destruct (b0 / 16 =? 4), (nth 23 f 0 =? 58), ((4 * (b0 mod 16) <=? tl) && (tl <? 4 * (b0 mod 16) + 8));
         cbn in Hk; try discriminate; auto. }
-    destruct Hv as (Hver & Hihl & H58 & Htl).
+    destruct Hv as (Hver & H58 & Htl).
     rewrite Hver. cbn [andb].
     set (hl := N.to_nat (4 * (b0 mod 16))) in *.
-    assert (Hhl : (20 <= hl)%nat) by (unfold hl; lia).
-    assert (Htl' : (hl + 8 <= N.to_nat tl)%nat) by (unfold hl; lia).
-    assert (E20 : Nat.leb 20 hl = true) by (apply Nat.leb_le; lia). rewrite E20.
+    destruct (Nat.ltb_spec hl 20) as [Hhl|Hhl].
+    { cbn [orb]. destruct (Nat.leb_spec 20 hl); [lia|reflexivity]. }
+    cbn [orb].
+    assert (E20 : Nat.leb 20 hl = true) by (apply Nat.leb_le; lia). rewrite E20. cbn [andb].
+    destruct (Nat.ltb_spec (N.to_nat tl) hl) as [Hth|Hth].
+    { rewrite orb_true_r. cbn [orb]. destruct (Nat.leb_spec hl (N.to_nat tl)); [lia|reflexivity]. }
+    rewrite orb_false_r.
+    assert (Htl' : (hl + 8 <= N.to_nat tl)%nat) by (unfold hl in *; lia).
     assert (Ehl : Nat.leb hl (N.to_nat tl) = true) by (apply Nat.leb_le; lia). rewrite Ehl. cbn [andb].
     destruct (Nat.leb_spec (N.to_nat tl) (List.length f - 14)) as [Ltl|Ltl].
     + assert (Ea : Nat.ltb (List.length f - 14) hl = false) by (apply Nat.ltb_ge; lia).
@@ -199,10 +204,10 @@ Qed.
 (* ------------------------------------------------------------------ *)
 (* witnesses: the three recorded classes, and non-vacuity *)
 
-(* IPv4 header with first byte 0 (version 0, IHL 0), protocol 1, IP identification 7 *)
+(* "IPv4" header with version nibble 5 (0x55), otherwise an echo reply with id 7 *)
 Definition w_iphdr : bytes :=
-  [0; 85; 85; 85; 85; 85; 2; 25; 0; 0; 0; 0; 8; 0; 0; 0; 0; 28; 0; 7; 0; 0; 64; 1; 248; 251;
-   192; 168; 0; 20; 192; 168; 0; 129; 8; 0; 162; 172; 85; 82; 0; 1].
+  [0; 85; 85; 85; 85; 85; 2; 25; 0; 0; 0; 0; 8; 0; 85; 0; 0; 28; 0; 0; 0; 0; 64; 1; 248; 251;
+   192; 168; 0; 20; 192; 168; 0; 129; 0; 0; 255; 247; 0; 7; 0; 1].
 (* IPv6 packet with next header 1 carrying an ICMPv4-style echo reply, id 7 *)
 Definition w_family : bytes :=
   [0; 85; 85; 85; 85; 85; 2; 25; 0; 0; 0; 0; 134; 221; 96; 0; 0; 0; 0; 8; 1; 64;
